@@ -94,8 +94,25 @@ def cases(ctx):
                 count += 1
                 yield {"version": version, "steps": steps}
     ctx.exhaustive["type-gate-cases"] = count
-    # random histories with many version reports
     from .. import histories
+
+    # only VERSION REPORTS move the version: dictionary payloads (string constants / regex examples of the handler modules,
+    # e.g. start-up banners that mention a version) in every other message kind the gateway or a node can send leave the
+    # state where it was - then the probes show which rules are in force
+    candidates = [c for c in histories.dictionary_payloads()[: ctx.pick(150, 800)] if ";" not in c]
+    kinds = [f"0;255;3;0;{t};{{}}" for t in (9, 14, 11, 12, 0, 5, 6, 8, 10, 13, 15, 18, 22)] + \
+            ["1;255;3;0;9;{}", "1;255;3;0;11;{}", "1;0;1;0;47;{}", "1;0;0;0;6;{}", "1;255;4;0;0;{}"]
+    for initial in (None, "2.1"):
+        for start in range(0, len(candidates), 8):
+            if not ctx.mine():
+                continue
+            steps = list(PRE)
+            for cand in candidates[start:start + 8]:
+                for kind in kinds:
+                    steps.append(["rx", kind.format(cand) + "\n"])
+                steps.append(["rx", PROBES[start % len(PROBES)]])
+            yield {"version": initial, "steps": steps}
+    # random histories with many version reports
 
     for i in range(ctx.pick(300, 100000) // ctx.shard_count):
         version = [None, *VERSIONS][i % 6]
